@@ -44,6 +44,9 @@ func runC05(c *Config, r *Report) {
 	c05R12(ic, r)
 	c05R13(ic, r)
 	c05R14(ic, r)
+	c05R16(ic, r)
+	c05R17(ic, r)
+	c05R18(ic, r)
 	c04R20(ic, r, "R05.15")
 	c05R11(ic, r)
 	c05R3(ic, r)
@@ -1085,4 +1088,323 @@ func c05R14(ic *IC, r *Report) {
 func funcOf(info *types.Info, c *ast.CallExpr) *types.Func {
 	f, _ := calleeOf(info, c).(*types.Func)
 	return f
+}
+
+func init() {
+	ruleText["R05.16"] = "a failed single-value type assertion panics: in the run-time closures of the type-assertion generator every failing exit (a return reached under !ok, or right after ok = false) is preceded in its block by the panic of the single-value form (if !withOk { panic(...) }) or returns through a helper of the generator that panics in that form"
+}
+
+// c05R16: found through the round-6 report on C05 (D8). When the dynamic type had as many
+// methods as the asserted interface but lacked one of them, j := x.(J) did not panic: j was the
+// zero value and the program went on.
+func c05R16(ic *IC, r *Report) {
+	info := ic.Info
+	fi := ic.fn(r, "typeAssert")
+	if fi == nil {
+		return
+	}
+	execFld := ic.field("node", "exec")
+	// helpers of the generator that panic
+	panics := map[types.Object]bool{}
+	ast.Inspect(fi.Decl.Body, func(q ast.Node) bool {
+		as, ok := q.(*ast.AssignStmt)
+		if !ok || len(as.Lhs) != 1 || len(as.Rhs) != 1 {
+			return true
+		}
+		if lit, ok := unparen(as.Rhs[0]).(*ast.FuncLit); ok && selField(info, as.Lhs[0]) != execFld {
+			has := false
+			ast.Inspect(lit.Body, func(z ast.Node) bool {
+				if c, ok := z.(*ast.CallExpr); ok {
+					if id := identOf(c.Fun); id != nil && id.Name == "panic" {
+						has = true
+					}
+				}
+				return true
+			})
+			if id := identOf(as.Lhs[0]); id != nil && has {
+				panics[info.ObjectOf(id)] = true
+			}
+		}
+		return true
+	})
+	isNotOk := func(e ast.Expr) bool {
+		ue, ok := unparen(e).(*ast.UnaryExpr)
+		if !ok || ue.Op != token.NOT {
+			return false
+		}
+		id := identOf(ue.X)
+		return id != nil && id.Name == "ok"
+	}
+	hasPanic := func(n ast.Node) bool {
+		found := false
+		ast.Inspect(n, func(z ast.Node) bool {
+			if c, ok := z.(*ast.CallExpr); ok {
+				if id := identOf(c.Fun); id != nil && (id.Name == "panic" || panics[info.ObjectOf(id)]) {
+					found = true
+				}
+			}
+			return true
+		})
+		return found
+	}
+	nExits, k := 0, 0
+	ast.Inspect(fi.Decl.Body, func(m ast.Node) bool {
+		as, ok := m.(*ast.AssignStmt)
+		if !ok || len(as.Lhs) != 1 || len(as.Rhs) != 1 || selField(info, as.Lhs[0]) != execFld {
+			return true
+		}
+		fl, ok := unparen(as.Rhs[0]).(*ast.FuncLit)
+		if !ok {
+			return true
+		}
+		k++
+		var bad []string
+		var visit func(list []ast.Stmt, underNotOk bool)
+		visit = func(list []ast.Stmt, underNotOk bool) {
+			failing := underNotOk
+			covered := false
+			for _, st := range list {
+				switch y := st.(type) {
+				case *ast.AssignStmt:
+					if len(y.Lhs) == 1 && len(y.Rhs) == 1 {
+						if l, rr := identOf(y.Lhs[0]), identOf(y.Rhs[0]); l != nil && rr != nil && l.Name == "ok" && rr.Name == "false" {
+							failing = true
+						}
+					}
+				case *ast.IfStmt:
+					if hasPanic(y.Body) {
+						if ue, ok := unparen(y.Cond).(*ast.UnaryExpr); ok && ue.Op == token.NOT {
+							covered = true
+						}
+					}
+					visit(y.Body.List, underNotOk || isNotOk(y.Cond))
+					if blk, ok := y.Else.(*ast.BlockStmt); ok {
+						visit(blk.List, underNotOk)
+					}
+				case *ast.ForStmt:
+					visit(y.Body.List, underNotOk)
+				case *ast.RangeStmt:
+					visit(y.Body.List, underNotOk)
+				case *ast.BlockStmt:
+					visit(y.List, underNotOk)
+				case *ast.ReturnStmt:
+					if failing {
+						nExits++
+						if !covered && !hasPanic(y) {
+							bad = append(bad, ic.pos(y.Pos()))
+						}
+					}
+				}
+			}
+		}
+		visit(fl.Body.List, false)
+		r.Check(len(bad) == 0, "R05.16", fmt.Sprintf("typeAssert/closure#%d/failed-single-value-assertion-panics", k), ic.pos(fl.Pos()), "every failing exit panics in the single-value form",
+			"this closure of typeAssert leaves through a failing exit ("+strings.Join(bad, ", ")+") without the panic of the single-value form: j := x.(J) on a value that lacks a method of J (but has as many methods) yields the zero value of J and the program goes on, where compiled Go panics with 'interface conversion: ... missing method N'")
+		return true
+	})
+	if nExits < 4 {
+		r.Errorf("R05.16: only %d failing exits found in the closures of typeAssert", nExits)
+	}
+}
+
+func init() {
+	ruleText["R05.17"] = "in the type-switch case generator every branch taken for a value of an interpreted interface type (guarded by a successful assertion to the interface wrapper) decides the match with a predicate that knows the three kinds of case: nil (the zero interface value), a concrete type (identity of the dynamic type) and an interface type (method set inclusion) - comparing type identities alone never matches case nil nor an interface case"
+}
+
+// c05R17: found through the round-6 report on C05 (D11, D13). switch v := x.(type) { case J: }
+// with x of an interpreted interface type never took an interface case, and case nil never
+// matched the nil value of such a type.
+func c05R17(ic *IC, r *Report) {
+	info := ic.Info
+	fi := ic.fn(r, "_case")
+	if fi == nil {
+		return
+	}
+	viT, _ := ic.Pk.Types.Scope().Lookup("valueInterface").(*types.TypeName)
+	if viT == nil {
+		r.Errorf("R05.17: type valueInterface not found")
+		return
+	}
+	// the predicates: in-package functions taking the wrapper and a type, mentioning nilT and a method-set inclusion
+	matcher := map[types.Object]bool{}
+	for f, hd := range ic.G.Funcs {
+		if hd.Decl.Body == nil {
+			continue
+		}
+		sg := f.Type().(*types.Signature)
+		takes := false
+		for i := 0; i < sg.Params().Len(); i++ {
+			if types.Identical(sg.Params().At(i).Type(), viT.Type()) {
+				takes = true
+			}
+		}
+		if !takes {
+			continue
+		}
+		nilCase, incl := false, false
+		ast.Inspect(hd.Decl.Body, func(q ast.Node) bool {
+			switch y := q.(type) {
+			case *ast.Ident:
+				if c, ok := info.Uses[y].(*types.Const); ok && c.Name() == "nilT" {
+					nilCase = true
+				}
+			case *ast.CallExpr:
+				if se, ok := unparen(y.Fun).(*ast.SelectorExpr); ok && (se.Sel.Name == "contains" || se.Sel.Name == "implements") {
+					incl = true
+				}
+			}
+			return true
+		})
+		if nilCase && incl {
+			matcher[f] = true
+		}
+	}
+	n := 0
+	ast.Inspect(fi.Decl.Body, func(q ast.Node) bool {
+		ifs, ok := q.(*ast.IfStmt)
+		if !ok || ifs.Init == nil {
+			return true
+		}
+		as, ok := ifs.Init.(*ast.AssignStmt)
+		if !ok || len(as.Rhs) != 1 {
+			return true
+		}
+		ta, ok := unparen(as.Rhs[0]).(*ast.TypeAssertExpr)
+		if !ok || ta.Type == nil || !types.Identical(info.TypeOf(ta.Type), viT.Type()) {
+			return true
+		}
+		if id := identOf(ifs.Cond); id == nil || id.Name != "ok" {
+			return true
+		}
+		n++
+		uses := false
+		for _, c := range allCalls(ifs.Body) {
+			if o := calleeOf(info, c); o != nil && matcher[o] {
+				uses = true
+			}
+		}
+		r.Check(uses, "R05.17", fmt.Sprintf("_case/interface-value-branch#%d/nil-concrete-and-interface-cases", n), ic.pos(ifs.Pos()), "the match is decided by a predicate handling nil, concrete and interface cases",
+			"this branch of the type-switch case generator handles a value of an interpreted interface type by comparing the identity of its dynamic type with the case type only: case nil never matches the nil interface value and a case naming an interface never matches (type I interface{ M() }; var x I = T{}; switch x.(type) { case J: } takes default although T implements J)")
+		return true
+	})
+	// the form without guard variable uses "val, ok := ival.(valueInterface)" followed by "if !ok { ... return }": its tail
+	tail := 0
+	ast.Inspect(fi.Decl.Body, func(q ast.Node) bool {
+		fl, ok := q.(*ast.FuncLit)
+		if !ok {
+			return true
+		}
+		for i, st := range fl.Body.List {
+			as, ok := st.(*ast.AssignStmt)
+			if !ok || len(as.Rhs) != 1 || len(as.Lhs) != 2 {
+				continue
+			}
+			ta, ok := unparen(as.Rhs[0]).(*ast.TypeAssertExpr)
+			if !ok || ta.Type == nil || !types.Identical(info.TypeOf(ta.Type), viT.Type()) {
+				continue
+			}
+			tail++
+			n++
+			uses := false
+			for _, rest := range fl.Body.List[i+1:] {
+				if ifs, ok := rest.(*ast.IfStmt); ok {
+					if ue, ok := unparen(ifs.Cond).(*ast.UnaryExpr); ok && ue.Op == token.NOT {
+						continue // the branch of the values that are not wrappers
+					}
+				}
+				for _, c := range allCalls(rest) {
+					if o := calleeOf(info, c); o != nil && matcher[o] {
+						uses = true
+					}
+				}
+			}
+			r.Check(uses, "R05.17", fmt.Sprintf("_case/interface-value-tail#%d/nil-concrete-and-interface-cases", tail), ic.pos(as.Pos()), "the match is decided by a predicate handling nil, concrete and interface cases",
+				"after the assertion to the interface wrapper this closure of the type-switch case generator compares the identity of the dynamic type with the case types only: case nil and interface cases never match a value of an interpreted interface type")
+		}
+		return true
+	})
+	if n < 3 {
+		r.Errorf("R05.17: only %d branches for values of an interpreted interface type found in _case (3 forms expected)", n)
+	}
+}
+
+func init() {
+	ruleText["R05.18"] = "a promoted field or method is the shallowest one: in the look-up functions of itype no loop over the fields of a type returns the first hit of a recursive look-up (depth-first); a loop that recurses keeps the candidate whose path is the shortest (a comparison of path lengths), or the look-up proceeds level by level without recursion"
+}
+
+// c05R18: found through the round-6 report on C05 (D1). type A struct { B; C } with M declared on
+// C and on D embedded in B: a.M() called D.M (depth 2) instead of C.M (depth 1); same for fields.
+func c05R18(ic *IC, r *Report) {
+	info := ic.Info
+	fieldFld := ic.field("itype", "field")
+	n := 0
+	for _, name := range sortedKeys(ic.F) {
+		fi := ic.F[name]
+		if fi.Decl.Body == nil || fi.Obj == nil || fi.Decl.Recv == nil || !strings.HasPrefix(fi.Obj.Name(), "lookup") {
+			continue
+		}
+		if sg := fi.Obj.Type().(*types.Signature); sg.Recv() == nil || !isNamedPtr(sg.Recv().Type(), "itype") {
+			continue
+		}
+		// functions and literals of this declaration that may be re-entered: the declared function, and local func variables
+		recursive := func(c *ast.CallExpr) bool {
+			if o := calleeOf(info, c); o != nil && o == types.Object(fi.Obj) {
+				return true
+			}
+			if id := identOf(c.Fun); id != nil {
+				if v, ok := info.ObjectOf(id).(*types.Var); ok && v.Pos() > fi.Decl.Pos() && v.Pos() < fi.Decl.End() {
+					if _, isSig := v.Type().Underlying().(*types.Signature); isSig {
+						return true
+					}
+				}
+			}
+			return false
+		}
+		k := 0
+		ast.Inspect(fi.Decl.Body, func(q ast.Node) bool {
+			rs, ok := q.(*ast.RangeStmt)
+			if !ok || selField(info, rs.X) != fieldFld {
+				return true
+			}
+			rec := false
+			for _, c := range allCalls(rs.Body) {
+				if recursive(c) {
+					rec = true
+				}
+			}
+			if !rec {
+				return true
+			}
+			k++
+			n++
+			// first-hit return inside the loop, without any comparison of path lengths
+			firstHit := ""
+			ast.Inspect(rs.Body, func(z ast.Node) bool {
+				if ret, ok := z.(*ast.ReturnStmt); ok {
+					firstHit = ic.pos(ret.Pos())
+				}
+				return true
+			})
+			compares := false
+			ast.Inspect(rs.Body, func(z ast.Node) bool {
+				if be, ok := z.(*ast.BinaryExpr); ok && (be.Op == token.LSS || be.Op == token.LEQ || be.Op == token.GTR || be.Op == token.GEQ) {
+					if strings.Contains(types.ExprString(be), "len(") {
+						compares = true
+					}
+				}
+				return true
+			})
+			r.Check(firstHit == "" && compares, "R05.18", fmt.Sprintf("%s/fields-loop#%d/shallowest-candidate-kept", name, k), ic.pos(rs.Pos()), "the loop over the fields compares the depths of the candidates and returns after it",
+				name+" explores the fields depth-first and takes the first hit"+func() string {
+					if firstHit != "" {
+						return " (return at " + firstHit + ")"
+					}
+					return " (no comparison of path lengths)"
+				}()+": a method or field promoted through the first embedded field wins whatever its depth - type A struct { B; C }, M on C and on D embedded in B: a.M() calls D.M, where the Go specification selects the shallowest, C.M")
+			return true
+		})
+	}
+	if n < 2 {
+		r.Errorf("R05.18: only %d recursive loops over the fields found in the look-up functions of itype", n)
+	}
 }
